@@ -735,6 +735,24 @@ func genC16(c *Ctx) {
 			if d.Mode&0o777 != uint32(st.Mode().Perm()) {
 				diffs = append(diffs, fmt.Sprintf("perm %o vs %o", d.Mode&0o777, st.Mode().Perm()))
 			}
+			// the whole mode word: permission bits, DMDIR, and — in 9P2000.u only — the Unix type and set-id bits
+			want := uint32(st.Mode().Perm())
+			if st.IsDir() {
+				want |= g.DMDIR
+			}
+			if dotu {
+				for _, b := range []struct {
+					os os.FileMode
+					np uint32
+				}{{os.ModeSymlink, g.DMSYMLINK}, {os.ModeSocket, g.DMSOCKET}, {os.ModeNamedPipe, g.DMNAMEDPIPE}, {os.ModeDevice, g.DMDEVICE}, {os.ModeSetuid, g.DMSETUID}, {os.ModeSetgid, g.DMSETGID}} {
+					if st.Mode()&b.os != 0 {
+						want |= b.np
+					}
+				}
+			}
+			if d.Mode != want {
+				diffs = append(diffs, fmt.Sprintf("mode word %#x, the file and the dialect say %#x", d.Mode, want))
+			}
 			if d.Mtime != uint32(st.ModTime().Unix()) {
 				diffs = append(diffs, "mtime")
 			}
@@ -897,7 +915,6 @@ func errnoOf(err error) uint32 {
 	}
 	return uint32(en)
 }
-
 
 // ---- the plan of POSIX calls behind a mutating request: the harness's rendering of Ufs.Create and
 // Ufs.Wstat, compared line by line with lean/G9/UfsPlan.lean and applied to a third tree that must
@@ -1079,13 +1096,16 @@ func genC17(c *Ctx) {
 		ptree := filepath.Join(e.outer, "plan") // the tree the model's plan of POSIX calls is applied to
 		os.Mkdir(ptree, 0o755)
 		// identical starting trees
-		base := []string{"a", "b", "d1", "d1/x", "d2"}
+		base := []string{"a", "b", "d1", "d1/x", "d2", "d3", "d4"}
 		for _, root := range []string{e.root, twin, ptree} {
 			os.WriteFile(filepath.Join(root, "a"), []byte("alpha"), 0o644)
 			os.WriteFile(filepath.Join(root, "b"), []byte("bravo-bravo"), 0o600)
 			os.Mkdir(filepath.Join(root, "d1"), 0o755)
 			os.WriteFile(filepath.Join(root, "d1", "x"), []byte("x"), 0o644)
 			os.Mkdir(filepath.Join(root, "d2"), 0o755)
+			// parents whose own permission bits are narrower than what is asked for the child
+			os.Mkdir(filepath.Join(root, "d3"), 0o700)
+			os.Mkdir(filepath.Join(root, "d4"), 0o750)
 		}
 		live := append([]string{}, base...)
 		for step := 0; step < 10; step++ {
@@ -1159,9 +1179,9 @@ func genC17(c *Ctx) {
 				}
 				live = append(live, name)
 			case 0: // create file
-				dir := []string{"", "d1", "d2"}[r.Intn(3)]
+				dir := []string{"", "d1", "d2", "d3", "d4"}[r.Intn(5)]
 				name := fmt.Sprintf("n%d", r.Intn(4))
-				perm := uint32([]int{0o644, 0o600, 0o755, 0o400, 0}[r.Intn(5)])
+				perm := uint32([]int{0o644, 0o600, 0o755, 0o400, 0, 0o666, 0o664, 0o777}[r.Intn(8)])
 				mode := uint8([]int{g.OREAD, g.OWRITE, g.ORDWR, g.OWRITE | g.OTRUNC}[r.Intn(4)])
 				what = fmt.Sprintf("create %s/%s perm %o mode %d", dir, name, perm, mode)
 				if reached = exists(filepath.Join(e.root, dir)); reached {
@@ -1189,20 +1209,21 @@ func genC17(c *Ctx) {
 				}
 				live = append(live, filepath.Join(dir, name))
 			case 1: // mkdir
-				dir := []string{"", "d1", "d2"}[r.Intn(3)]
+				dir := []string{"", "d1", "d2", "d3", "d4"}[r.Intn(5)]
 				name := fmt.Sprintf("m%d", r.Intn(3))
-				what = fmt.Sprintf("mkdir %s/%s", dir, name)
+				dperm := uint32([]int{0o755, 0o777, 0o750, 0o700}[r.Intn(4)])
+				what = fmt.Sprintf("mkdir %s/%s perm %o", dir, name, dperm)
 				if reached = exists(filepath.Join(e.root, dir)); reached {
-					plan = goCreatePlan(dotu, g.DMDIR|0o755, g.OREAD, true, false, false)
-					planLine = fmt.Sprintf("createplan %s %d %d 1 0 0", b2s(dotu), uint32(g.DMDIR|0o755), g.OREAD)
+					plan = goCreatePlan(dotu, g.DMDIR|dperm, g.OREAD, true, false, false)
+					planLine = fmt.Sprintf("createplan %s %d %d 1 0 0", b2s(dotu), uint32(g.DMDIR|dperm), g.OREAD)
 					epl = applyPlan(plan, filepath.Join(ptree, dir, name), "", "", "")
 				}
-				f, err := e.c.FCreate(filepath.Join(dir, name), g.DMDIR|0o755, g.OREAD)
+				f, err := e.c.FCreate(filepath.Join(dir, name), g.DMDIR|dperm, g.OREAD)
 				e9 = err
 				if err == nil {
 					f.Close()
 				}
-				ep = os.Mkdir(filepath.Join(twin, dir, name), 0o755)
+				ep = os.Mkdir(filepath.Join(twin, dir, name), os.FileMode(dperm))
 				live = append(live, filepath.Join(dir, name))
 			case 2: // remove
 				p := live[r.Intn(len(live))]
